@@ -1,5 +1,6 @@
 import Abmarl.Model.Wire
 import Abmarl.Model.MgrDriver
+import Abmarl.Model.GridDriver
 /-! Line-protocol driver: one request per line on stdin, one reply per line on stdout. -/
 open Abmarl
 
@@ -9,6 +10,7 @@ def dispatch (line : String) : String :=
     let r : Option Val :=
       match op with
       | "mgr" => MgrDriver.handle args
+      | "gmove" => GridDriver.handle args
       | "ping" => some (.list (.atom "pong" :: args))
       | _ => none
     match r with
